@@ -171,16 +171,21 @@ theorem interLoop_nse (l : List (Bytes × Bool)) (r : Res) : ∀ (k : List (Nat 
       split
       · trivial
       · apply ih; intro acc; exact h _
-theorem writeBack_nse (l : List (Bytes × List Bytes × List Bytes)) (k : Prog Res) (h : k.NoSetDeadline) :
-    (writeBack l k).NoSetDeadline := by
+theorem storeLoop_nse (l : List (Bytes × Bool)) : ∀ (k : Bool → List (List Bytes) → Prog Res),
+    (∀ e x, (k e x).NoSetDeadline) → (storeLoop l k).NoSetDeadline := by
   induction l with
-  | nil => exact h
-  | cons x r ih =>
-    obtain ⟨a, o, n⟩ := x
-    unfold writeBack
+  | nil => intro k h; exact h _ _
+  | cons x rest ih =>
+    intro k h
+    obtain ⟨key, e⟩ := x
+    unfold storeLoop
     split
-    · exact ih
-    · exact nse_call _ _ (by rfl) (fun _ => ih)
+    · apply ih; intro _ acc; exact h _ _
+    · refine nse_call _ _ (by rfl) ?_
+      intro vs
+      split
+      · trivial
+      · apply ih; intro _ acc; exact h _ _
 
 /-- `nse` extended with the set-module combinators -/
 macro "nse2" : tactic => `(tactic| (
@@ -193,23 +198,25 @@ macro "nse2" : tactic => `(tactic| (
     | (exact ofOutcome_nse _)
     | (apply collectSets_nse; intro _)
     | (apply interLoop_nse; intro _)
-    | (apply writeBack_nse)
+    | (apply storeLoop_nse; intro _ _)
     | (refine nse_call _ _ (by rfl) ?_; intro _)
     | split
     | (dsimp only))))
 
 theorem handleSDiff_nse (st : Bool) (c : Ctx) (cmd : List Bytes) : (handleSDiff st c cmd).NoSetDeadline := by
   unfold handleSDiff; nse2
-theorem sinterStore_nse (a d : Bytes) (s : List (Nat × List Bytes)) (r : List Bytes) : (sinterStore a d s r).NoSetDeadline := by
-  unfold sinterStore; nse2
-theorem sinterTail_nse (m : Nat) (l : Int) (a d : Bytes) (s : List (Nat × List Bytes)) : (sinterTail m l a d s).NoSetDeadline := by
-  unfold sinterTail; nse2 <;> exact sinterStore_nse _ _ _ _
+theorem sinterTail_nse (m : Nat) (l : Int) (s : List (Nat × List Bytes)) : (sinterTail m l s).NoSetDeadline := by
+  unfold sinterTail; nse2
+theorem handleSInterStore_nse (cmd : List Bytes) : (handleSInterStore cmd).NoSetDeadline := by
+  unfold handleSInterStore; nse2
+theorem handleSInterRead_nse (m : Nat) (c : Ctx) (cmd : List Bytes) : (handleSInterRead m c cmd).NoSetDeadline := by
+  unfold handleSInterRead; nse2 <;> exact sinterTail_nse _ _ _
 theorem handleSInter_nse (m : Nat) (c : Ctx) (cmd : List Bytes) : (handleSInter m c cmd).NoSetDeadline := by
-  unfold handleSInter; nse2 <;> exact sinterTail_nse _ _ _ _ _
-theorem sunionTail_nse (st : Bool) (d : Bytes) (o : List (Bytes × Nat × List Bytes)) : (sunionTail st d o).NoSetDeadline := by
-  unfold sunionTail; nse2
+  unfold handleSInter; split
+  · exact handleSInterStore_nse _
+  · exact handleSInterRead_nse _ _ _
 theorem handleSUnion_nse (st : Bool) (c : Ctx) (cmd : List Bytes) : (handleSUnion st c cmd).NoSetDeadline := by
-  unfold handleSUnion; nse2 <;> exact sunionTail_nse _ _ _
+  unfold handleSUnion; nse2
 
 
 /-! ### sorted-set handlers -/
